@@ -1,6 +1,7 @@
 import Katib.Base.Hex
 import Katib.Drv.C11
 import Katib.Drv.Status
+import Katib.Drv.Sim
 open Katib Katib.Drv
 
 /-- model output for one op line -/
@@ -22,17 +23,22 @@ def handleOracle (toks out : List String) : String :=
 def splitArrow (toks : List String) : List String × List String :=
   (toks.takeWhile (· ≠ "=>"), (toks.dropWhile (· ≠ "=>")).drop 1)
 
-def handleLine (line : String) : String :=
-  match tokens line with
-  | "ORACLE" :: r => let (a, b) := splitArrow r; handleOracle a b
-  | toks => handle toks
+structure DrvState where
+  sim : Katib.Ctl.Sim := {}
 
-partial def loop (h : IO.FS.Stream) (out : IO.FS.Stream) : IO Unit := do
+def handleLine (st : DrvState) (line : String) : DrvState × String :=
+  match tokens line with
+  | "ORACLE" :: r => let (a, b) := splitArrow r; (st, handleOracle a b)
+  | "SIM" :: r => let (s', out) := handleSim st.sim r; ({ st with sim := s' }, out)
+  | toks => (st, handle toks)
+
+partial def loop (h : IO.FS.Stream) (out : IO.FS.Stream) (st : DrvState) : IO Unit := do
   let line ← h.getLine
   if line.isEmpty then return ()
-  out.putStrLn (handleLine line)
-  loop h out
+  let (st', r) := handleLine st line
+  out.putStrLn r
+  loop h out st'
 
 def main : IO Unit := do
   let out ← IO.getStdout
-  loop (← IO.getStdin) out
+  loop (← IO.getStdin) out {}
